@@ -106,9 +106,14 @@ def check(ctx: Ctx) -> list[RuleResult]:
         while p is not None and not cfg.nodes_of(p):
             p = getattr(p, "parent", None)
         node = cfg.nodes_of(p)[0] if p is not None else None
+        from .common import known_at as _known_at
+
+        st_ = s.node
+        while not isinstance(st_, ast.stmt):
+            st_ = st_.parent  # type: ignore[attr-defined]
         guards = [t for t in cfg.nodes if t.kind == "test" and "cmd.src.id != HGI_DEV_ADDR.id" == norm(t.ast) and node is not None and cfg.edge_dominates(t, "true", node)]
-        if guards:
-            r1.ok({"alert_site": f"{s.caller.short}", "guard": norm(guards[0].ast)})
+        if guards or _known_at(st_, "cmd.src.id != HGI_DEV_ADDR.id", s.caller.node):
+            r1.ok({"alert_site": f"{s.caller.short}", "guard": "cmd.src.id != HGI_DEV_ADDR.id is known at the call"})
         else:
             r1.fail(f"{s.caller.short}:alert-unguarded", s.caller.loc(s.node), "the impersonation alert is sent without the `cmd.src.id != HGI_DEV_ADDR.id` guard (an extra transmission ahead of every command)")
     sends_in_alert = [n for n in own_nodes(alert.node) if isinstance(n, ast.Await)]
@@ -186,7 +191,21 @@ def check(ctx: Ctx) -> list[RuleResult]:
                 if "self._fut" in tg and g.cls is not None and g.cls.name == "ProtocolContext":
                     r4.instances += 1
                     r4.nontrivial += 1
-                    if g.name == "__init__" or {"self._cmd", "self._qos"} <= set(tg):
+                    # "together": in one statement, or in one run of adjacent plain assignments (nothing can run in between)
+                    par = getattr(n, "parent", None)
+                    sibs = next((getattr(par, fld) for fld in ("body", "orelse", "finalbody") if isinstance(getattr(par, fld, None), list) and n in getattr(par, fld)), [n])
+                    i0 = sibs.index(n)
+                    lo = i0
+                    while lo > 0 and isinstance(sibs[lo - 1], ast.Assign) and not any(isinstance(x, (ast.Call, ast.Await)) for x in ast.walk(sibs[lo - 1].value)):
+                        lo -= 1
+                    hi = i0
+                    while hi + 1 < len(sibs) and isinstance(sibs[hi + 1], ast.Assign) and not any(isinstance(x, (ast.Call, ast.Await)) for x in ast.walk(sibs[hi + 1].value)):
+                        hi += 1
+                    run_tg = set(tg)
+                    for st0 in sibs[lo : hi + 1]:
+                        for t0 in st0.targets:
+                            run_tg |= {norm(x) for x in ast.walk(t0) if isinstance(x, ast.Attribute) and isinstance(x.ctx, ast.Store)}
+                    if g.name == "__init__" or {"self._cmd", "self._qos"} <= set(tg) or {"self._cmd", "self._qos"} <= run_tg:
                         r4.ok({"write": f"{g.short}: {norm(n)[:70]}"})
                     else:
                         r4.fail(f"{g.short}:{norm(n)[:50]}", g.loc(n), "ProtocolContext._fut is assigned without _cmd and _qos: the future could be resolved while another command is the one in flight")
